@@ -117,6 +117,17 @@ pub fn gen_probe_spec(c: &mut Chooser, allow_dispose: bool) -> ProbeSpec {
 const ALL_MODES: &[Mode] = &[Mode::Listen, Mode::PullSync, Mode::PullDeferred];
 const ALL_FINS: &[Fin] = &[Fin::End, Fin::End, Fin::Err, Fin::Never];
 
+/// a share node makes the subscriptions of a tree dependent on purpose
+fn tree_has_share(n: &Node) -> bool {
+    match n {
+        Node::Share(_) => true,
+        Node::Leaf => false,
+        Node::Un(_, x) => tree_has_share(x),
+        Node::Merge(v) | Node::Concat(v) | Node::Flatten(v) => v.iter().any(tree_has_share),
+        Node::Combine2(a, b) => tree_has_share(a) || tree_has_share(b),
+    }
+}
+
 fn gen_node_no_share(c: &mut Chooser, depth: usize) -> Node {
     fn strip(n: Node) -> Node {
         match n {
@@ -244,6 +255,15 @@ pub fn gen_case_sized(c: &mut Chooser, op: &str, prop: &str, small: bool) -> Cas
         && c.chance(1, 4)
     {
         // the same output value subscribed twice: every subscription must satisfy the statement
+        n_probes = 2;
+    }
+    if matches!(prop, "C01" | "C02" | "C03" | "C04" | "C05" | "C17")
+        && !matches!(topo, Topo::Share(_) | Topo::ForEach)
+        && !matches!(&topo, Topo::Tree(n) if tree_has_share(n))
+        && !small
+        && c.chance(1, 5)
+    {
+        // the universal monitors are per edge: a second subscription of the same output costs nothing
         n_probes = 2;
     }
     if prop == "C07" && matches!(topo, Topo::Unary(_)) && c.chance(1, 3) {
